@@ -1,10 +1,19 @@
 ------------------------------ MODULE Trace_C06 -----------------------------
 (* (T) for C06: every recorded styled closed shape is checked against P_C06.  *)
-EXTENDS TraceBase, P_C06
+EXTENDS TraceBase, P_C06, EGStyledCurve
 VARIABLE l
 Init == l = 1
 StepCase(e)   == e.ev = "case"
+\* DRIFT: draw() and pixels() of small styled ellipses / rounded rectangles vs the transcribed scanline machines of
+\* EGStyledCurve (the closed form of what MC_C06e steps)
+SmallStyled(e) == e.kind \in {"ellipse", "rrect"} /\ e.shape_box[3] <= 14 /\ e.shape_box[4] <= 14 /\ e.style.w <= 10
+                  /\ (e.kind = "rrect" => Len(e.radii) = 4)
+ShapeOf(e) == IF e.kind = "ellipse" THEN e.shape_box ELSE <<e.shape_box, e.radii>>
 StepStyled(e) == e.ev = "styled" /\
+  DriftReport(e.case, ~SmallStyled(e) \/ CRunsToSet(e.draw) = StyledMapT(e.kind, ShapeOf(e), e.style, "draw"),
+              "draw_differs_from_transcribed_scanline_machine", [kind |-> e.kind, shape_box |-> e.shape_box, style |-> e.style]) /\
+  DriftReport(e.case, ~SmallStyled(e) \/ e.trunc # 0 \/ CRunsToSet(e.pixels) = StyledMapT(e.kind, ShapeOf(e), e.style, "pixels"),
+              "pixels_differs_from_transcribed_scanline_machine", [kind |-> e.kind, shape_box |-> e.shape_box, style |-> e.style]) /\
   (\A k \in 1..Len(e.wins) :
      LET wf == WindowFails(e, e.wins[k]) IN
      Report(e.case, wf, IF wf = {} THEN <<>> ELSE [kind |-> e.kind, stroke_box |-> e.stroke_box, window |-> e.wins[k].box,
